@@ -70,30 +70,35 @@ def verify(pid, k):
 
 
 def run(mid, props):
+    """Run the quick check(s) against a scratch copy of /repo with the patch applied. The copy is
+    bind-mounted over /repo in a private mount namespace, so the real /repo is never touched and
+    several seeded changes can be checked side by side; build output and evidence go to a scratch
+    work dir that is removed afterwards."""
     d = f"{SEEDED}/{mid}"
     meta = json.load(open(f"{d}/meta.json"))
     if not props:
         props = [meta["breaks_property"]]
-    rc, o = sh("git status --porcelain", cwd="/repo")
-    if o.strip():
-        print("/repo is not clean; refusing")
-        return
-    rc, o = sh(["git", "apply", f"{d}/patch.diff"], cwd="/repo")
+    scratch = f"/tmp/mw/{mid}"
+    shutil.rmtree(scratch, ignore_errors=True)
+    os.makedirs(scratch + "/repo")
+    sh(f"rsync -a --exclude target --exclude .git /repo/ {scratch}/repo/")
+    rc, o = sh(["git", "apply", "--unsafe-paths", "--directory", scratch + "/repo", f"{d}/patch.diff"], cwd="/")
     if rc != 0:
-        print("apply failed", o)
+        rc, o = sh(f"cd {scratch}/repo && patch -p1 --binary < {d}/patch.diff")
+    if rc != 0:
+        print(mid, "patch does not apply to the current tree:", o[-300:])
         return
+    os.makedirs(scratch + "/work", exist_ok=True)
+    sh(f"cp -r /verif/work/target-base {scratch}/work/target-base 2>/dev/null; true")
     results = meta.get("check_results", {})
-    try:
-        for p in props:
-            t0 = time.time()
-            rc, o = sh(["/verif/check", p, "--tier", "quick"], cwd="/verif", timeout=7200)
-            lines = [l for l in o.split("\n") if l.startswith(("VIOLATION", "INCONCLUSIVE", "KNOWN-FINDING", "["))]
-            results[p] = {"exit": rc, "seconds": round(time.time() - t0), "lines": [l[:300] for l in lines[:8]]}
-            print(mid, p, "exit", rc, f"{time.time()-t0:.0f}s", lines[:2])
-    finally:
-        sh("git checkout -- .", cwd="/repo")
-        # evidence/replays written while a mutant was applied are not evidence for the real tree
-        sh("git checkout -- evidence 2>/dev/null; true", cwd="/verif")
+    for p in props:
+        t0 = time.time()
+        cmd = f"unshare -m bash -c 'mount --bind {scratch}/repo /repo && cd /verif && VERIF_WORK={scratch}/work VERIF_EVIDENCE={scratch}/evidence ./check {p} --tier quick'"
+        rc, o = sh(cmd, timeout=10800)
+        lines = [l for l in o.split("\n") if l.startswith(("VIOLATION", "INCONCLUSIVE", "KNOWN-FINDING", "["))]
+        results[p] = {"exit": rc, "seconds": round(time.time() - t0), "lines": [l[:400] for l in lines[:8]]}
+        print(mid, p, "exit", rc, f"{time.time()-t0:.0f}s", [l[:160] for l in lines[:3]], flush=True)
+    shutil.rmtree(scratch, ignore_errors=True)
     meta["check_results"] = results
     json.dump(meta, open(f"{d}/meta.json", "w"), indent=1)
 
